@@ -12,6 +12,7 @@ pub mod c01;
 pub mod c02;
 pub mod c03;
 pub mod c04;
+pub mod c05;
 pub mod c06;
 pub mod c07;
 pub mod c08;
@@ -245,6 +246,7 @@ pub fn run(id: &str, tier: Tier, rest: &[String]) -> i32 {
         "C02" => c02::run(tier, part),
         "C03" => c03::run(tier, part),
         "C04" => c04::run(tier, part),
+        "C05" => c05::run(tier, part),
         "C06" => c06::run(tier, part),
         "C07" => c07::run(tier, part),
         "C08" => c08::run(tier, part),
@@ -282,6 +284,7 @@ pub fn replay(file: &str) -> i32 {
         "C02" => c02::replay(tier, &doc["replay"]),
         "C03" => c03::replay(tier, &doc["replay"]),
         "C04" => c04::replay(&doc["replay"]),
+        "C05" => c05::replay(&doc["replay"]),
         "C06" => c06::replay(tier, &doc["replay"]),
         "C07" => c07::replay(tier, &doc["replay"]),
         "C17" => c17::replay(tier, &doc["replay"]),
